@@ -88,6 +88,16 @@ pub struct PoolInfo {
     pub state: String,
 }
 
+/// a Kamino reserve of the stand-in venue: reserve account, its lending market and liquidity supply vault
+#[derive(Clone, Debug)]
+pub struct ReserveInfo {
+    pub reserve: Pubkey,
+    pub market: Pubkey,
+    pub lma: Pubkey,
+    pub supply_vault: Pubkey,
+    pub mint_name: String,
+}
+
 #[derive(Clone, Default)]
 pub struct Env {
     pub world: World,
@@ -95,6 +105,7 @@ pub struct Env {
     pub mints: BTreeMap<String, MintInfo>,
     pub oracles: BTreeMap<String, OracleInfo>,
     pub pools: BTreeMap<String, PoolInfo>,
+    pub reserves: BTreeMap<String, ReserveInfo>,
 }
 
 pub fn fee_state_key() -> Pubkey {
@@ -123,11 +134,20 @@ impl Env {
             ("prog.ata", marginfi::constants::ASSOCIATED_TOKEN_KEY),
             ("prog.kamino", marginfi::constants::KAMINO_PROGRAM_ID),
             ("prog.drift", marginfi::constants::DRIFT_PROGRAM_ID),
+            ("prog.farms", marginfi::constants::FARMS_PROGRAM_ID),
             ("prog.wrapper", crate::rt::wrapper_program_id()),
             ("prog.unknown", crate::rt::noop_program_id()),
         ] {
             e.names.reg(n, k);
             e.world.add_program(k);
+        }
+        // the Rent sysvar as an account (instructions that take `Sysvar<Rent>` read it from there)
+        {
+            let r = solana_program::rent::Rent::default();
+            let mut data = r.lamports_per_byte_year.to_le_bytes().to_vec();
+            data.extend_from_slice(&r.exemption_threshold.to_le_bytes());
+            data.push(r.burn_percent);
+            e.world.set(solana_program::sysvar::rent::ID, Acct { lamports: 1_009_200, data, owner: solana_program::sysvar::ID, executable: false });
         }
         e.names.reg("sysvar.ixs", solana_program::sysvar::instructions::ID);
         e.names.reg("sysvar.rent", solana_program::sysvar::rent::ID);
@@ -262,6 +282,63 @@ impl Env {
             .unwrap_or(0);
         let supply = self.world.get(&p.mint).map(|a| u64::from_le_bytes(a.data[36..44].try_into().unwrap())).unwrap_or(0);
         (stake, supply)
+    }
+
+    /// Kamino reserve (stand-in venue): reserve account with the real layout and discriminator, owned by the Kamino
+    /// program id, a lending market, and a liquidity supply vault owned by the market authority PDA holding `avail`.
+    pub fn add_kamino_reserve(&mut self, name: &str, mint_name: &str, market_name: &str, avail: u64, supply: u64, borrowed_units: u64) {
+        use kamino_mocks::state::{MinimalReserve, RESERVE_DISCRIMINATOR};
+        let kamino = marginfi::constants::KAMINO_PROGRAM_ID;
+        let m = self.mints[mint_name].clone();
+        let reserve = self.k(name);
+        let market = self.k(market_name);
+        if self.world.get(&market).is_none() {
+            self.world.set(market, Acct { lamports: 10_000_000, data: vec![7u8; 64], owner: kamino, executable: false });
+        }
+        let (lma, _) = crate::venue::lending_market_authority(&market);
+        self.names.reg(&format!("{}.lma", market_name), lma);
+        let vault = self.token_account(&format!("{}.supply", name), mint_name, lma);
+        if avail > 0 {
+            self.mint_to(mint_name, vault, avail);
+        }
+        let mut r: MinimalReserve = bytemuck::Zeroable::zeroed();
+        r.version = 1;
+        r.slot = self.world.clock.slot;
+        r.lending_market = market;
+        r.mint_pubkey = m.key;
+        r.supply_vault = vault;
+        r.available_amount = avail;
+        r.borrowed_amount_sf = ((borrowed_units as u128) << 60).to_le_bytes();
+        r.mint_decimals = m.decimals as u64;
+        r.mint_total_supply = supply;
+        r.token_program = m.program;
+        let mut data = RESERVE_DISCRIMINATOR.to_vec();
+        data.extend_from_slice(bytemuck::bytes_of(&r));
+        self.world.set(reserve, Acct { lamports: 100_000_000, data, owner: kamino, executable: false });
+        // placeholders for the collateral mint / collateral supply accounts the instructions carry along
+        for sfx in ["cmint", "umeta"] {
+            let k = self.k(&format!("{}.{}", name, sfx));
+            if self.world.get(&k).is_none() {
+                self.world.fund(k, 1_000_000);
+            }
+        }
+        self.token_account(&format!("{}.csupply", name), mint_name, lma);
+        self.reserves.insert(name.to_string(), ReserveInfo { reserve, market, lma, supply_vault: vault, mint_name: mint_name.to_string() });
+    }
+
+    /// environment moves on a reserve: interest (borrowed grows), fees, slot of the last refresh
+    pub fn set_kamino_reserve(&mut self, name: &str, f: &dyn Fn(&mut kamino_mocks::state::MinimalReserve)) {
+        use kamino_mocks::state::MinimalReserve;
+        let key = match self.reserves.get(name) {
+            Some(r) => r.reserve,
+            None => return,
+        };
+        if let Some(a) = self.world.accts.get_mut(&key) {
+            let sz = std::mem::size_of::<MinimalReserve>();
+            let mut r: MinimalReserve = bytemuck::pod_read_unaligned(&a.data[8..8 + sz]);
+            f(&mut r);
+            a.data[8..8 + sz].copy_from_slice(bytemuck::bytes_of(&r));
+        }
     }
 
     pub fn mint_by_key(&self, key: &Pubkey) -> Option<&MintInfo> {
